@@ -349,10 +349,11 @@ impl SwiftField for Field53SenderCorrespondent {
                 let field = Field53D::parse(value)?;
                 Ok(Field53SenderCorrespondent::D(field))
             }
-            _ => {
-                // No variant specified, fall back to default parse behavior
-                Self::parse(value)
-            }
+            // No option letter given: fall back to content-based detection
+            None => Self::parse(value),
+            Some(other) => Err(ParseError::InvalidFormat {
+                message: format!("Field 53 has no option '{}'", other),
+            }),
         }
     }
 
